@@ -263,7 +263,7 @@ def param_sync_rule(prog, res):
                      function=f0.sig, expr=expr_)
         elif good:
             res.ok('param-sync', inst, fh.loc(), okd, function=f0.sig, expr=expr_)
-        elif got and all(g_.startswith('this.') or g_.startswith('(') or g_ in ('0', '(unsigned long)0') for g_ in got):
+        elif got and all((g_.startswith('this.') or g_.startswith('(') or g_ in ('0', '(unsigned long)0')) and '?' not in g_ and '&(' not in g_ and 'local:' not in g_ for g_ in got):
             res.viol('param-sync', inst, fh.loc(), '%s count is computed from %s' % (role[:-1], sorted(got)), function=f0.sig, expr=expr_)
         else:
             res.undecided('param-sync', inst, fh.loc(), '%s count is computed from %s [shape not read by the rule]' % (role[:-1], sorted(got)), function=f0.sig, expr=expr_)
